@@ -121,6 +121,33 @@ CLAIMED.update({
     ),
 })
 
+CLAIMED.update({
+    "C11": (
+        "Coq proof (Cauchy-Schwarz completeness of the image box, exactness, no duplicates) of a generic model of PeriodicGrid.get_localgrid + exact bigQ correspondence and brute-force oracle",
+        "15 theorems at R for any list of lattice vectors with dual reciprocal vectors (up to 3 dimensions): every (point, lattice translation) "
+        "inside the sphere lies in the enumerated integer box (`complete`), the model's range is the code's ceil/floor formula, the local grid is "
+        "exactly the set of images within the radius with parent weight and index, no duplicates, stored position = parent + translation, "
+        "wrapping is irrelevant, no lattice = plain grid; `_refuted` theorems document the three defects of the pinned commit (repaired by fix: "
+        "commits). Model tied by exact correspondence at bigQ on dyadic lattices and by a brute-force integer oracle on the implementation.",
+        "Trusted: Coq kernel+vm_compute; stdlib real and funext axioms; hypotheses validated each run: reciprocal vectors of the code (SVD "
+        "pseudo-inverse) are dual to the lattice vectors, cKDTree ball query contract; dimension <= 3, at least one point; float ties on box "
+        "boundaries are compared modulo lattice vectors.",
+        "DESIGN.md section 6 C11",
+    ),
+    "C07": (
+        "Coq proof (induction over the constructor loop; fan-out characterisations) of a model of MolGrid + exact bigQ correspondence and constructor-vs-by-hand differential runs",
+        "19 theorems for any number of atoms and any commutative semiring (R instance given): the constructor loop yields the concatenation, the "
+        "index table delimits the atoms, weights = atomic weights x aim weights, the molecular integral decomposes into atomic integrals of "
+        "w_A f, get_atomic_grid spec, store-independence of every observable except __getitem__ (`_partial`; the full statement is `_refuted` "
+        "on the current code: known finding), fan-out of from_size/from_preset/from_pruned (single/list/dict arguments) equals building by hand. "
+        "Tie: exact vm_compute correspondence on dyadic grids and bitwise constructor-vs-by-hand comparison on the implementation.",
+        "Trusted: Coq kernel+vm_compute; stdlib real axioms for the two R instances; Becke weights, default radial grids and the AtomGrid "
+        "builders are Section variables (C05/C06); partial: the end-to-end 1% clause is runtime numerics, covered by a seeded search sweep only "
+        "(six presets violate it for a light atom 1.2-1.4 bohr from a heavy atom: known findings).",
+        "DESIGN.md section 6 C07",
+    ),
+})
+
 NOT_YET = {
     # pid: reason (kept current; a property moves to CLAIMED once its check is green on the unchanged tree)
 }
